@@ -24,20 +24,25 @@ ASSUMPTIONS = ["Rust semantics of Vec/usize/isize as modelled (checked indexing,
                "`B += c` / `B -= c` are read as acting on the stored in-band entries (a banded matrix cannot hold the others)",
                "resize, indices with row >= n and division by zero are outside the claim (tied to the model, not judged by the oracle)",
                "float backward error of solve is demanded (1e-11 normwise) only when cond_inf(D) <= 1e8; the theorems are about the model"]
-UNPROVED = ["band_solve_sound / band_det_spec for m1 >= 1 (the compact LU simulation with row exchanges): tied exhaustively in (n,m1,m2) and searched, proved only for m1 = 0",
-            "normwise backward error of the f64/Complex instantiation (tie + search)",
+UNPROVED = ["band_det_spec (determinant = determinant of the dense twin): tied exhaustively in (n,m1,m2) and judged by the oracle against an exact "
+            "determinant, not proved (the pivots are proved nonzero on nonsingular input, their product is not related to a determinant function)",
+            "padding independence of solve/det as an equation between two runs: proved for the product; for solve it follows from soundness only "
+            "up to the solution set (both answers solve the same dense system), for det it is tied and searched",
+            "normwise backward error of the f64/Complex instantiation (tie + search); the theorems are over an abstract field",
             "operand non-mutation / owned = borrowed forms are run-time observations of the executor"]
 
 MANIFEST = dict(
-    text=("Theorems over any ring/field about the Gallina model of src/banded.rs (compact n x (m1+m2+1) storage on the flat dense-matrix model): "
-          "the in-band test and slot map (range, injectivity), the matrix-vector product = product of the dense twin for all (n,m1,m2) and independent of "
-          "every padding slot, arithmetic commutes with the dense twin; partial results for the compact LU (see UNPROVED). The model (decompose statement "
-          "by statement, repaired pivot rule) is run against the implementation on every (n,m1,m2) up to n=6 (10 thorough) x sign patterns x loud padding "
-          "(Rat vs Qc exact, f64/Complex vs primitive floats), and a dense-twin reference in Fraction judges entries, arithmetic, product, determinant and "
-          "the residual of solve."),
-    note=("The LU simulation (solve/det = dense elimination for m1 >= 1) is tied and searched, not proved; float accuracy is searched. "
-          "The pre-repair pivot rule is refuted in coq/Legacy/C04Refuted.v."),
-    technique="Coq proof over an abstract ring + model/implementation differential execution (vm_compute vs Rust executor) + dense-twin oracle",
+    text=("Theorems, for all n, m1, m2 and all entry values, about the Gallina model of src/banded.rs (compact n x (m1+m2+1) storage on the flat "
+          "dense-matrix model, decompose statement by statement): the in-band test and slot map (range, injectivity, distinct offsets); element access = "
+          "dense twin / refused outside the band; &B*&v = (dense twin).v and independent of every padding slot; every operator and compound assignment "
+          "commutes with the dense twin; band_solve is sound over any field (whatever it returns solves the dense twin's system, also across matrices "
+          "that differ in padding only), never leaves its buffers (it answers or refuses at a zero pivot of its own factorisation), and with the magnitude "
+          "pivot rule answers on every nonsingular band (trivial kernel); the pre-repair signed rule is refuted by the committed witness. The model is run "
+          "against the implementation on every (n,m1,m2) up to n=6 (10 thorough) x sign patterns x loud padding (Rat vs Qc exact, f64/Complex vs primitive "
+          "floats, bit-compared), and a dense-twin reference in Fraction judges entries, arithmetic, product, determinant and the residual of solve."),
+    note=("The determinant is tied and searched, not proved equal to a determinant of the dense twin; float accuracy is searched (backward error 1e-11 on "
+          "systems with cond <= 1e8). Hypothesis m1 <= n in the LU theorems (the property has m1 < n; wider bands are tied to the model only)."),
+    technique="Coq proof over an abstract ring/field + model/implementation differential execution (vm_compute vs Rust executor) + dense-twin oracle",
     design="7 (C04)")
 
 # ------------------------------------------------------------------ values
